@@ -201,37 +201,46 @@ def run(ctx, replay=None):
     rng = random.Random(ctx.seed)
     behs = []
     per_cfg = {}
-    budget = {"write": 4000, "adopt": 6000, "patch": 3000, "calls": 9000, "two": 6000} if thorough else {"write": 250, "adopt": 450, "patch": 200, "calls": 700, "two": 300}
+    budget = {"write": 4000, "adopt": 6000, "patch": 3000, "calls": 9000, "two": 6000} if thorough else {"write": 250, "adopt": 400, "patch": 200, "calls": 700, "two": 300}
+    # long random walks over the whole alphabet
+    simk = dict(BASE, Slots=[0, 1], WriteDevs=ALL_WRITE_DEVS, AdoptDevs=ALL_ADOPT_DEVS, PunchModes=[0, 1, 2], PatchFields=ALL_FIELDS, CallSet=ALL_CALLS,
+                MaxWrites=3, MaxMods=2, MaxPatches=4, MaxAdopters=40, MaxFail=40, MaxOK=40, MaxCalls=60, MaxDestroys=40)
+    simlen = 30 if thorough else 24
+    jobs = []
     for cname, k in model_cfgs(thorough):
         for dis in (True, False):
             if cname in ("write", "patch") and not dis and not thorough:
                 continue        # Disallowed only matters for calls
-            gen = [("MC_Shmem_gen.tla", gen_module(k, dis))]
-            out, st = ctx.tlc_mc("MC_Shmem_gen", gen_cfg(k, dis, 1, 0, 0, True), tag="bfs_%s_%d" % (cname, dis), workers=6, extra_modules=gen, timeout=2400)
+            jobs.append(("bfs", cname, dis, k))
+    for dis in (True, False):
+        jobs.append(("sim", "sim", dis, simk))
+
+    def tlc_job(j):
+        kind, cname, dis, k = j
+        gen = [("MC_Shmem_gen.tla", gen_module(k, dis))]
+        if kind == "bfs":
+            return ctx.tlc_mc("MC_Shmem_gen", gen_cfg(k, dis, 1, 0, 0, True), tag="bfs_%s_%d" % (cname, dis), workers=3, extra_modules=gen, timeout=2400, heap="4g")
+        return ctx.tlc_mc("MC_Shmem_gen", gen_cfg(k, dis, 1, 0, simlen, False), tag="sim_%d" % dis, workers=2, extra_modules=gen,
+                          simulate="num=%d" % (300 if thorough else 30), depth=simlen + 2, timeout=900, heap="4g")
+    import concurrent.futures as cf
+    with cf.ThreadPoolExecutor(max_workers=4) as ex:
+        results = list(ex.map(tlc_job, jobs))
+    for (kind, cname, dis, k), (out, st) in zip(jobs, results):
+        topos = [t for t in TOPOS if t[1] == dis]
+        if kind == "bfs":
             if st["error"] or st["rc"] != 0:
                 raise vlib.Infra("model check of MC_Shmem (%s) failed (model-level, not a violation): %s\n%s" % (cname, st["error"], out[-2500:]))
-            edges = list(vlib.tlc_printed(out, "EDGE"))
-            per_cfg["%s/%s" % (cname, "dis" if dis else "nodis")] = len(edges)
+            hists = list(vlib.tlc_printed(out, "EDGE"))
+            per_cfg["%s/%s" % (cname, "dis" if dis else "nodis")] = len(hists)
             keep = budget[cname] // 2 if cname not in ("write", "patch") or thorough else budget[cname]
-            if len(edges) > keep:
-                edges = rng.sample(edges, keep)
-            topos = [t for t in TOPOS if t[1] == dis]
-            for n, h in enumerate(edges):
-                behs.append(render(h, topos[n % len(topos)], n))
-    # long random walks over the whole alphabet
-    simk = dict(BASE, Slots=[0, 1], WriteDevs=ALL_WRITE_DEVS, AdoptDevs=ALL_ADOPT_DEVS, PunchModes=[0, 1, 2], PatchFields=ALL_FIELDS, CallSet=ALL_CALLS,
-                MaxWrites=3, MaxMods=2, MaxPatches=4, MaxAdopters=4, MaxFail=40, MaxOK=40, MaxCalls=60, MaxDestroys=40)
-    simlen = 30 if thorough else 24
-    for dis in (True, False):
-        gen = [("MC_Shmem_gen.tla", gen_module(simk, dis))]
-        out, st = ctx.tlc_mc("MC_Shmem_gen", gen_cfg(simk, dis, 1, 0, simlen, False), tag="sim_%d" % dis, workers=4, extra_modules=gen,
-                             simulate="num=%d" % (150 if thorough else 15), depth=simlen + 2, timeout=900)
-        if st["error"]:
-            raise vlib.Infra("simulation of MC_Shmem failed: %s\n%s" % (st["error"], out[-2500:]))
-        sims = list(vlib.tlc_printed(out, "SIM"))
-        per_cfg["sim/%s" % ("dis" if dis else "nodis")] = len(sims)
-        topos = [t for t in TOPOS if t[1] == dis]
-        for n, h in enumerate(sims):
+            if len(hists) > keep:
+                hists = rng.sample(hists, keep)          # seeded sample of the state-graph edges
+        else:
+            if st["error"]:
+                raise vlib.Infra("simulation of MC_Shmem failed: %s\n%s" % (st["error"], out[-2500:]))
+            hists = list(vlib.tlc_printed(out, "SIM"))
+            per_cfg["sim/%s" % ("dis" if dis else "nodis")] = len(hists)
+        for n, h in enumerate(hists):
             behs.append(render(h, topos[n % len(topos)], n))
     nmodel = len(behs)
     behs += corpus_behaviours(thorough, rng)
